@@ -192,4 +192,5 @@ class HplEventDisjunction(HplEvent):
         self.event2.type_check_references(msg_types)
 
     def __str__(self) -> str:
-        return f'({self.event1} or {self.event2})'
+        # the grammar only accepts a flat list of alternatives: (e1 or e2 or e3)
+        return f'({" or ".join(str(event) for event in self.simple_events())})'
